@@ -101,17 +101,11 @@ Definition without (l : list string) (t : table) : table :=
 
 (* Methods that break the discipline on the current tree.  Each was confirmed with the Go
    race detector (see docs/C32.md); the number is the known-finding id of KNOWN_FINDINGS.txt.
-   "parameters.ParseFlags" is the package-level function in which the write of finding 5
-   physically happens (the race detector names it, the translator attributes it to the
-   method that passes p.params to it). *)
+   (Config.Set, Variables.set, Variables.Dump, Params.Raw and Params.ParseFlags broke it on
+   the pinned tree and were repaired: fixes/C32.txt.) *)
 Definition known_racy : list (string * N) := [
-  ("streams.Stdin.GetDataType", 1%N);          (* reads dataType without the mutex once the context is cancelled *)
-  ("config.Config.Set", 2%N);                  (* reads conf.properties[..].Dynamic / GoFunc after Unlock *)
-  ("lang.Variables.set", 3%N);                 (* reads v.vars[name] before taking the mutex (MxInterface data types) *)
-  ("parameters.Params.Raw", 4%N);          (* reads PreParsed without the mutex *)
-  ("parameters.Params.ParseFlags", 5%N);   (* rewrites alias flags in p.params while holding only the read lock *)
-  ("parameters.ParseFlags", 5%N);
-  ("lang.Variables.Dump", 6%N)                 (* hands out the live map: its readers run without the mutex *)
+  ("streams.Stdin.GetDataType", 1%N)           (* reads dataType without the mutex once the context is
+                                                  cancelled; deliberate according to the source comment *)
 ]%string.
 
 (* Helpers that break the discipline only because the translator is intra-procedural: they
